@@ -292,7 +292,7 @@ func (ps paramSingle) Build(c containerStore) (reflect.Value, error) {
 
 		// If we're missing dependencies but the parameter itself is optional,
 		// we can just move on.
-		if errors.As(err, new(errMissingDependencies)) && ps.Optional {
+		if ps.Optional && causedByMissingDependencies(err) {
 			return reflect.Zero(ps.Type), nil
 		}
 
@@ -307,6 +307,23 @@ func (ps paramSingle) Build(c containerStore) (reflect.Value, error) {
 	// container.
 	v, _ = providingContainer.getValue(ps.Name, ps.Type)
 	return v, nil
+}
+
+// causedByMissingDependencies reports whether err, an error returned by a
+// provider, is a chain of dig errors that leads to errMissingDependencies.
+// It does not look inside errors returned by user code: a constructor that
+// fails with an error of its own has failed, whatever that error wraps.
+func causedByMissingDependencies(err error) bool {
+	for err != nil {
+		if _, ok := err.(errMissingDependencies); ok { //nolint:errorlint // must not look inside user errors
+			return true
+		}
+		if _, ok := err.(Error); !ok { //nolint:errorlint // see above
+			return false
+		}
+		err = errors.Unwrap(err)
+	}
+	return false
 }
 
 // paramObject is a dig.In struct where each field is another param.
